@@ -179,6 +179,47 @@ def r27_5(ctx, rep):
     module_state_free(ctx, rep, "R27.5", "src/pymoca/backends/casadi/api.py", "the CasADi API")
 
 
+CLI = "tools/compiler.py"
+
+
+@SPEC.rule(
+    "R27.6",
+    "every file of every given path is found, whatever the paths are called and in whatever order they are given: list_modelica_files decides "
+    "nothing by comparing path *strings* (startswith / endswith / `in` on str(path)) — `lib_models` is not inside `lib` — and every directory it is "
+    "given is searched",
+)
+def r27_6(ctx, rep):
+    from ..cfg import CFG, iteration_skips
+    R = "R27.6"
+    fn = ctx.func(CLI, "list_modelica_files", R)
+    site = CLI + ":list_modelica_files"
+    textual = []
+    for c in calls(fn):
+        if isinstance(c.func, ast.Attribute) and c.func.attr in ("startswith", "endswith", "find", "index", "removeprefix", "partition") and (
+                "str(" in norm(c.func.value) or "as_posix" in norm(c.func.value) or "fspath" in norm(c.func.value) or any("str(" in norm(a) for a in c.args)):
+            textual.append("line %d: %s" % (c.lineno, norm(c)[:60]))
+    for cmp_ in ast.walk(fn):
+        if isinstance(cmp_, ast.Compare) and any(isinstance(o, (ast.In, ast.NotIn)) for o in cmp_.ops) and "str(" in norm(cmp_.left) and "str(" in norm(cmp_.comparators[0]):
+            textual.append("line %d: %s" % (cmp_.lineno, norm(cmp_)[:60]))
+    rep.ob(R, site, "no containment test on path strings", not textual,
+           "%s — a sibling directory whose name merely begins like one already searched is taken to lie inside it and is skipped" % "; ".join(textual[:3]))
+    loops = [lp for lp in fn.body if isinstance(lp, ast.For)]
+    if not loops:
+        raise MechanismMissing(R, "loop over the given paths not found")
+    cfg = CFG(fn, R)
+    lp = loops[0]
+    # every directory path reaches the glob
+    globs = lambda x: x.kind in ("stmt", "iter") and any(isinstance(c.func, ast.Attribute) and c.func.attr in ("glob", "rglob", "walk") for c in calls(x.ast.iter if x.kind == "iter" else x.ast))  # noqa: E731
+    dir_assumes = [x for x in cfg.nodes if x.kind == "assume" and x.taken and "is_dir()" in norm(x.ast)]
+    it = [x for x in cfg.nodes if x.kind == "iter" and x.ast is lp][0]
+    through = {x.id for x in cfg.nodes if x.ast is not None and globs(x)}
+    bad = None
+    for a in dir_assumes:
+        bad = bad or cfg.path(a.id, it.id, avoid=through)
+    rep.ob(R, site, "every directory given is searched", bool(dir_assumes) and bool(through) and bad is None,
+           "a path that is a directory can be passed over without being globbed", path=cfg.describe(bad) if bad else "")
+
+
 # -- seeded variants ---------------------------------------------------------
 from ._mut import delete_stmt_where, replace_in_func  # noqa: E402
 
@@ -229,3 +270,17 @@ def _m_skip(mod):
         return False
 
     return mod if replace_in_func(mod, "Tree._update_parent_refs", edit) else None
+
+
+@SPEC.mutant("directories skipped when their name extends a searched one", CLI, "R27.6", "path strings")
+def _m_prefix_skip(mod):
+    def edit(fn):
+        for lp in fn.body:
+            if isinstance(lp, ast.For):
+                lp.body.insert(0, ast.parse("if any(str(path).startswith(str(d)) for d in _done):\n    continue").body[0])
+                lp.body.insert(1, ast.parse("_done.append(path)").body[0])
+                fn.body.insert(fn.body.index(lp), ast.parse("_done = []").body[0])
+                return True
+        return False
+
+    return mod if replace_in_func(mod, "list_modelica_files", edit) else None
